@@ -21,6 +21,8 @@ pub enum Cond {
     Include404_500,
     /// excluded codes written [500, 404]
     Exclude500_404,
+    /// [404] with the exclusion flag written out as `false` (a plain include list)
+    Include404FlagFalse,
 }
 
 #[derive(Clone, Copy, Debug, Serialize, Deserialize, PartialEq, Eq, Hash, PartialOrd, Ord)]
@@ -53,7 +55,7 @@ pub enum Payload {
     HeaderOverrideShared,
 }
 
-pub const CONDS: [Cond; 5] = [Cond::None, Cond::Include404, Cond::Exclude404, Cond::Include404_500, Cond::Exclude500_404];
+pub const CONDS: [Cond; 6] = [Cond::None, Cond::Include404, Cond::Exclude404, Cond::Include404_500, Cond::Exclude500_404, Cond::Include404FlagFalse];
 pub const CONTROLS: [Control; 12] = [
     Control::Plain,
     Control::Reset,
@@ -123,6 +125,9 @@ pub fn core_shapes() -> Vec<Shape> {
     }
     v.push(Shape { cond: Cond::Include404_500, control: Control::Reset, payload: Payload::Status404 });
     v.push(Shape { cond: Cond::Include404, control: Control::Stop, payload: Payload::Status404 });
+    for payload in [Payload::Redirect301, Payload::LogFalse, Payload::Everything] {
+        v.push(Shape { cond: Cond::Include404FlagFalse, control: Control::Plain, payload });
+    }
     v.sort();
     v.dedup();
     v
@@ -132,7 +137,7 @@ impl Shape {
     pub fn codes(&self) -> Vec<u16> {
         match self.cond {
             Cond::None => vec![],
-            Cond::Include404 | Cond::Exclude404 => vec![404],
+            Cond::Include404 | Cond::Exclude404 | Cond::Include404FlagFalse => vec![404],
             Cond::Include404_500 | Cond::Exclude500_404 => vec![500, 404],
         }
     }
@@ -142,7 +147,7 @@ impl Shape {
     pub fn admits(&self, c: u16) -> bool {
         match self.cond {
             Cond::None => true,
-            Cond::Include404 => c == 404,
+            Cond::Include404 | Cond::Include404FlagFalse => c == 404,
             Cond::Exclude404 => c != 404,
             Cond::Include404_500 => c == 404 || c == 500,
             Cond::Exclude500_404 => c != 404 && c != 500,
@@ -217,7 +222,7 @@ impl Shape {
             "source": {
                 "scheme": null, "host": null, "ips": null, "path": path, "query": null, "headers": null, "methods": null, "exclude_methods": null,
                 "response_status_codes": if codes.is_empty() { Value::Null } else { json!(codes) },
-                "exclude_response_status_codes": if self.exclude() { json!(true) } else { Value::Null },
+                "exclude_response_status_codes": if self.exclude() { json!(true) } else if self.cond == Cond::Include404FlagFalse { json!(false) } else { Value::Null },
                 "sampling": self.sampling(),
             },
             "target": self.target(id),
